@@ -16,7 +16,7 @@
    queues and target-queue hierarchies are not in this model (word-level lemmas in Properties_C06.v and the oracles
    cover them); fair termination is not proved (safety + no stuck state + nothing left at quiescence). *)
 From Coq Require Import ZArith Bool List.
-From Verif Require Import Word Conc DqFields SLaneS SLaneS_inv SLaneS_proofs SLaneS_progress.
+From Verif Require Import Word Conc DqFields SLaneS SLaneSR SLaneS_inv SLaneS_proofs SLaneS_progress.
 Import ListNotations.
 Local Open Scope Z_scope.
 
@@ -61,9 +61,7 @@ Theorem C06_slane_no_start_while_suspended : forall rb ina s,
   0 <= pstarts s <= 1 /\
   (pstarts s = 1 -> plic s = true /\ forall t, licensed_pc (pcs s t) = false) /\
   (forall t, licensed_pc (pcs s t) = true -> plic s = true /\ pstarts s = 0).
-Proof.
-  intros rb ina s Hrb R H. split; [exact (suspended_while_owed rb ina s Hrb R H) | exact (no_start_after_suspend_returned rb ina s Hrb R H)].
-Qed.
+Proof. exact no_start_after_suspend_returned. Qed.
 Print Assumptions C06_slane_no_start_while_suspended.
 
 (* the same for every suspended word (covers the activation period and suspends that have committed but not returned) *)
@@ -185,3 +183,13 @@ Example C06_slane_nonvacuous :
              susp_done s = 0 /\ suspended_word (st s) = false /\ lst s = [] /\ started s = [1; 0] /\ rootq s = 0).
 Proof. split; [exact demo_mid_reach | exact demo_final_reach]. Qed.
 Print Assumptions C06_slane_nonvacuous.
+
+(* the trace replay used by the correspondence (Model/SLaneSR.v: per-thread observations against gstep) is neither
+   empty nor universal: a drainer that locks, reads a non-suspended word, runs an item, then reads a SUSPENDED word must
+   leave through _dispatch_queue_invoke_finish; beginning another callout instead is rejected at that observation *)
+Example C06_slane_replay_discriminates :
+  replay 1 7 [OSee 9005071098445824; OCas 9005071098445824 27021668631183367; OSee 27021668631183367; OBegin; OEnd;
+              OSee 315252044782895111; OCas 315252044782895111 297235994858487808] = (-1, 1) /\
+  replay 1 7 [OSee 9005071098445824; OCas 9005071098445824 27021668631183367; OSee 27021668631183367; OBegin; OEnd;
+              OSee 315252044782895111; OBegin] = (6, 0).
+Proof. split; vm_compute; reflexivity. Qed.
